@@ -176,3 +176,44 @@ def writes_field(body, field):
             if any(isinstance(el, str) and el.startswith(pat) for el in s["place"][1:]):
                 out.append((i, s))
     return out
+
+
+def const_of(body, operand, depth=0):
+    """String/char constant an operand evaluates to, following copies, refs and promoted constants."""
+    if operand is None or depth > 8:
+        return None
+    if isinstance(operand, dict):
+        s = const_str(operand)
+        if s is not None:
+            return s
+        ch = op_char(operand)
+        if ch is not None:
+            return ch
+        if "promoted" in operand:
+            pb = body.j.get("promoted", [])
+            pi = operand["promoted"]
+            if pi < len(pb):
+                for bl in pb[pi]:
+                    for st in bl["stmts"]:
+                        if st["k"] == "assign" and st["rv"]["k"] == "use":
+                            cs = const_str(st["rv"]["op"])
+                            if cs is not None:
+                                return cs
+            return None
+        p = op_place(operand)
+        if p is None:
+            return None
+    else:
+        p = operand
+    l = pl_local(p)
+    sites = [s for s in body.def_sites(l) if isinstance(s[2], int)]
+    if len(sites) != 1:
+        return None
+    rhs = sites[0][3]
+    if isinstance(rhs, Call):
+        return None
+    if rhs["k"] in ("use", "cast"):
+        return const_of(body, rhs["op"], depth + 1)
+    if rhs["k"] == "ref":
+        return const_of(body, rhs["place"], depth + 1)
+    return None
